@@ -535,4 +535,229 @@ theorem wfData_normal (E : EncSpecs) (d : DataIn) (sv : Bytes) (hv : d.Valid) (h
       · simp only [List.mem_cons, List.not_mem_nil, or_false] at hp; subst hp; simp
       · simp at hp
 
+/-! ### Interest -/
+
+/-- reduction of `wfInterest` on a normal-form packet to finite checks on the list of pairs -/
+theorem wfInterest_of (V : Bytes) (l : List TV) (hV : V = encTVs l) (hlen : V.length < 2 ^ 64)
+    (hok : ∀ p ∈ l, TVok p)
+    (hord : inOrder (l.map (·.1)) [7, 33, 18, 30, 10, 12, 34, 36, 44, 46] = true)
+    (hhead : l.head?.map (·.1) = some 7)
+    (hall : ∀ p ∈ l, (if p.1 = 7 then wfName p.2
+        else if p.1 = 33 || p.1 = 18 then p.2.isEmpty
+        else if p.1 = 30 then wfLinks p.2
+        else if p.1 = 10 then p.2.length == 4
+        else if p.1 = 12 then natLenOk p.2
+        else if p.1 = 34 then p.2.length == 1
+        else if p.1 = 44 then wfSigInfo p.2
+        else true) = true) :
+    wfInterest (encTL 5 ++ encTL V.length ++ V) = true := by
+  have h1 : encTL 5 ++ encTL V.length ++ V = encTVs [(5, V)] := by simp [encTV]
+  have hok1 : ∀ p ∈ [((5 : Nat), V)], TVok p := by
+    intro p hp; simp only [List.mem_cons, List.not_mem_nil, or_false] at hp; subst hp
+    exact TVok_mk _ _ (by decide) hlen
+  rw [h1]
+  unfold wfInterest
+  rw [tlvs_encTVs _ hok1]
+  simp only [mkTlvs]
+  rw [hV, tlvs_encTVs _ hok]
+  simp only [map_typ_mkTlvs, head_typ_mkTlvs, hord, hhead, Bool.and_eq_true, decide_eq_true_eq, true_and]
+  refine ⟨by simp, ?_⟩
+  apply all_mkTlvs
+  intro p hp o h
+  exact hall p hp
+
+def boolL (b : Bool) (p : TV) : List TV := if b then [p] else []
+
+@[simp] theorem mem_boolL (b : Bool) (p q : TV) : q ∈ boolL b p ↔ b = true ∧ q = p := by
+  cases b <;> simp [boolL]
+
+theorem boolField_eq (t : Nat) (b : Bool) : boolField t b = encTVs (boolL b (t, [])) := by
+  cases b <;> simp [boolField, boolL, encTV, encTL_small 0]
+
+theorem sum_boolL_le (b : Bool) (p : TV) :
+    ((boolL b p).map (fun p => 18 + p.2.length)).sum ≤ 18 + (if b then p.2.length else 0) := by
+  cases b <;> simp [boolL]
+
+theorem sum_boolL_le' (b : Bool) (p : TV) :
+    ((boolL b p).map (fun p => 18 + p.2.length)).sum ≤ 18 + p.2.length := by
+  cases b <;> simp [boolL]
+
+theorem sublist_boolL (b : Bool) (p : TV) : ((boolL b p).map (·.1)).Sublist [p.1] := by
+  cases b <;> simp [boolL]
+
+theorem sublist_optL {α : Type} (o : Option α) (f : α → TV) (t : Nat) (h : ∀ a, (f a).1 = t) :
+    ((optL o f).map (·.1)).Sublist [t] := by
+  cases o <;> simp [optL, h]
+
+def interestTVs (i : InterestIn) (fn : Name) (sv : Bytes) : List TV :=
+  [(7, encNameInner fn)] ++ boolL i.cbp (33, []) ++ boolL i.mbf (18, [])
+    ++ optL i.fh (fun ns => (30, encLinks ns)) ++ optL i.nonce (fun x => (10, be 4 x))
+    ++ optL i.lt (fun x => (12, be (natLen x) x)) ++ optL i.hl (fun x => (34, [x % 256]))
+    ++ optL i.ap (fun c => (36, c.flatten)) ++ optL i.si (fun s => (44, encSigInfo s))
+    ++ boolL (decide (i.est > 0)) (46, sv)
+
+theorem interestValue_eq (E : EncSpecs) (i : InterestIn) (fn : Name) (sv : Bytes) :
+    interestValue i fn sv = encTVs (interestTVs i fn sv) := by
+  simp only [interestValue, interestHead, interestParamsPortion, interestTVs, encTVs_append, encTVs_single]
+  rw [optB_eq_encTVs i.fh _ (fun ns => (30, encLinks ns)) (by intro c; simp [encTV, E.linksLen_eq]),
+    optB_eq_encTVs i.nonce _ (fun x => (10, be 4 x)) (by intro x; simp [encNonce, encTV, encTL_small]),
+    optB_eq_encTVs i.lt _ _ (encNatField_eq 12),
+    optB_eq_encTVs i.hl _ (fun x => (34, [x % 256])) (by intro x; simp [encHopLimit, encTV, encTL_small]),
+    optB_eq_encTVs i.ap _ (fun c => (36, c.flatten)) (by intro c; simp [encTV, contentLen_eq]),
+    optB_eq_encTVs i.si _ (fun s => (44, encSigInfo s)) (by intro s; simp [encTV, E.sigInfoLen_eq]),
+    encNameField_eq E, boolField_eq 33, boolField_eq 18]
+  have : (if i.est > 0 then encTL 46 ++ encTL sv.length ++ sv else []) = encTVs (boolL (decide (i.est > 0)) (46, sv)) := by
+    by_cases he : i.est > 0 <;> simp [he, boolL, encTV]
+  rw [this]
+  simp only [List.append_assoc]
+
+theorem interest_total (i : InterestIn) (fn : Name) (sv : Bytes) (hv : i.Valid)
+    (hlen : nameLen fn ≤ nameLen (interestName i.name i.ap.isSome)) (hsv : sv.length ≤ i.est) :
+    nameLen fn + optN i.fh linksLen + optN i.ap contentLen + optN i.si sigInfoLen
+      + (if decide (i.est > 0) = true then sv.length else 0) + 16 < 2 ^ 62 := by
+  have h := hv.2.2.2.2.2.2.2
+  simp only [interestLen, interestHeadLen, nameFieldLen] at h
+  have h2 := optN_mono i.fh linksLen (fun ns => 1 + tlLen (linksLen ns) + linksLen ns) (by intro c; omega)
+  have h3 := optN_mono i.ap contentLen (fun c => 1 + tlLen (contentLen c) + contentLen c) (by intro c; omega)
+  have h4 := optN_mono i.si sigInfoLen (fun s => 1 + tlLen (sigInfoLen s) + sigInfoLen s) (by intro c; omega)
+  have h5 : (if decide (i.est > 0) = true then sv.length else 0) ≤ sigTLLen 46 i.est := by
+    unfold sigTLLen; by_cases he : i.est > 0 <;> simp [he]; omega
+  omega
+
+theorem optN_some_le {α : Type} (o : Option α) (f : α → Nat) (a : α) (h : o = some a) : f a ≤ optN o f := by
+  subst h; simp [optN]
+
+theorem interestTVs_ok (E : EncSpecs) (i : InterestIn) (fn : Name) (sv : Bytes) (hv : i.Valid)
+    (hlen : nameLen fn ≤ nameLen (interestName i.name i.ap.isSome)) (hsv : sv.length ≤ i.est) :
+    ∀ p ∈ interestTVs i fn sv, TVok p := by
+  have ht := interest_total i fn sv hv hlen hsv
+  intro p hp
+  simp only [interestTVs, List.mem_append, mem_optL, mem_boolL, List.mem_cons, List.not_mem_nil, or_false] at hp
+  rcases hp with ((((((((rfl | ⟨_, rfl⟩) | ⟨_, rfl⟩) | ⟨ns, hns, rfl⟩) | ⟨x, hx, rfl⟩) | ⟨x, hx, rfl⟩)
+    | ⟨x, hx, rfl⟩) | ⟨c, hc, rfl⟩) | ⟨s, hs, rfl⟩) | ⟨he, rfl⟩
+  · exact TVok_mk _ _ (by decide) (by rw [E.nameLen_eq]; omega)
+  · exact TVok_mk _ _ (by decide) (by simp)
+  · exact TVok_mk _ _ (by decide) (by simp)
+  · have := optN_some_le i.fh linksLen ns hns
+    exact TVok_mk _ _ (by decide) (by rw [E.linksLen_eq]; omega)
+  · exact TVok_mk _ _ (by decide) (by simp)
+  · have := natLen_cases x
+    exact TVok_mk _ _ (by decide) (by simp only [be_length]; omega)
+  · exact TVok_mk _ _ (by decide) (by simp)
+  · have := optN_some_le i.ap contentLen c hc
+    exact TVok_mk _ _ (by decide) (by rw [← contentLen_eq]; omega)
+  · have := optN_some_le i.si sigInfoLen s hs
+    exact TVok_mk _ _ (by decide) (by rw [E.sigInfoLen_eq]; omega)
+  · simp only [he, if_true] at ht
+    exact TVok_mk _ _ (by decide) (by omega)
+
+theorem interestValue_length_lt (E : EncSpecs) (i : InterestIn) (fn : Name) (sv : Bytes) (hv : i.Valid)
+    (hlen : nameLen fn ≤ nameLen (interestName i.name i.ap.isSome)) (hsv : sv.length ≤ i.est) :
+    (interestValue i fn sv).length < 2 ^ 64 := by
+  have ht := interest_total i fn sv hv hlen hsv
+  have h := encTVs_length_le (interestTVs i fn sv)
+  rw [← interestValue_eq E] at h
+  have a1 := sum_boolL_le' i.cbp (33, [])
+  have a2 := sum_boolL_le' i.mbf (18, [])
+  have a3 := sum_optL_le i.fh (fun ns => (30, encLinks ns)) linksLen (by intro c; simp [E.linksLen_eq])
+  have a4 := sum_optL_le i.nonce (fun x => (10, be 4 x)) (fun _ => 4) (by intro c; simp)
+  have a5 := sum_optL_le i.lt (fun x => (12, be (natLen x) x)) natLen (by intro c; simp)
+  have a6 := sum_optL_le i.hl (fun x => (34, [x % 256])) (fun _ => 1) (by intro c; simp)
+  have a7 := sum_optL_le i.ap (fun c => (36, c.flatten)) contentLen (by intro c; simp [contentLen_eq])
+  have a8 := sum_optL_le i.si (fun s => (44, encSigInfo s)) sigInfoLen (by intro s; simp [E.sigInfoLen_eq])
+  have a9 := sum_boolL_le (decide (i.est > 0)) (46, sv)
+  have c4 : optN i.nonce (fun _ => 4) ≤ 4 := by cases i.nonce <;> simp [optN]
+  have c5 : optN i.lt natLen ≤ 8 := by
+    cases hlt : i.lt with
+    | none => simp [optN]
+    | some x => have := natLen_cases x; simp only [optN]; omega
+  have c6 : optN i.hl (fun _ => 1) ≤ 1 := by cases i.hl <;> simp [optN]
+  simp only [interestTVs, List.map_append, List.sum_append, List.map_cons, List.map_nil, List.sum_cons,
+    List.sum_nil, E.nameLen_eq, List.length_nil] at h a1 a2 a9
+  omega
+
+/-- every Interest value in normal form is well-formed (for any final name not longer than announced) -/
+theorem wfInterest_normal (E : EncSpecs) (i : InterestIn) (fn : Name) (sv : Bytes) (hv : i.Valid)
+    (hfn : NameValid fn) (hlen : nameLen fn ≤ nameLen (interestName i.name i.ap.isSome)) (hsv : sv.length ≤ i.est) :
+    Spec.wfInterest (encTL 5 ++ encTL (interestValue i fn sv).length ++ interestValue i fn sv) = true := by
+  have _ht := interest_total i fn sv hv hlen hsv
+  apply wfInterest_of _ (interestTVs i fn sv) (interestValue_eq E i fn sv)
+    (interestValue_length_lt E i fn sv hv hlen hsv) (interestTVs_ok E i fn sv hv hlen hsv)
+  · apply inOrder_of_sublist
+    simp only [interestTVs, List.map_append]
+    have e : [7, 33, 18, 30, 10, 12, 34, 36, 44, 46]
+        = [7] ++ [33] ++ [18] ++ [30] ++ [10] ++ [12] ++ [34] ++ [36] ++ [44] ++ [46] := rfl
+    rw [e]
+    refine List.Sublist.append (List.Sublist.append (List.Sublist.append (List.Sublist.append
+      (List.Sublist.append (List.Sublist.append (List.Sublist.append (List.Sublist.append
+      (List.Sublist.append (List.Sublist.refl _) ?_) ?_) ?_) ?_) ?_) ?_) ?_) ?_) ?_
+    · exact sublist_boolL _ _
+    · exact sublist_boolL _ _
+    · exact sublist_optL _ _ _ (fun _ => rfl)
+    · exact sublist_optL _ _ _ (fun _ => rfl)
+    · exact sublist_optL _ _ _ (fun _ => rfl)
+    · exact sublist_optL _ _ _ (fun _ => rfl)
+    · exact sublist_optL _ _ _ (fun _ => rfl)
+    · exact sublist_optL _ _ _ (fun _ => rfl)
+    · exact sublist_boolL _ _
+  · simp [interestTVs]
+  · intro p hp
+    simp only [interestTVs, List.mem_append, mem_optL, mem_boolL, List.mem_cons, List.not_mem_nil, or_false] at hp
+    rcases hp with ((((((((rfl | ⟨_, rfl⟩) | ⟨_, rfl⟩) | ⟨ns, hns, rfl⟩) | ⟨x, hx, rfl⟩) | ⟨x, hx, rfl⟩)
+      | ⟨x, hx, rfl⟩) | ⟨c, hc, rfl⟩) | ⟨s, hs, rfl⟩) | ⟨he, rfl⟩
+    · simp [wfName_encNameInner fn hfn (by omega)]
+    · simp
+    · simp
+    · have := optN_some_le i.fh linksLen ns hns
+      simp [wfLinks_encLinks E ns (hv.2.1 ns hns) (by omega)]
+    · simp
+    · simp [natLenOk_be]
+    · simp
+    · simp
+    · have := optN_some_le i.si sigInfoLen s hs
+      simp [wfSigInfo_encSigInfo E s (hv.2.2.2.2.2.1 s hs) (by omega)]
+    · simp
+
+/-! ### the name finally carried by the Interest -/
+
+theorem stripDigest_subset (n : Name) (c : Component) (h : c ∈ stripDigest n) : c ∈ n := by
+  unfold stripDigest at h
+  split at h
+  · split at h
+    · exact List.dropLast_subset _ h
+    · exact h
+  · exact h
+
+theorem nameLen_append (a b : Name) : nameLen (a ++ b) = nameLen a + nameLen b := by
+  simp [nameLen, List.sum_append]
+
+theorem interestName_eq (n : Name) (b : Bool) :
+    interestName n b = if b then stripDigest n ++ [digestComp (List.replicate 32 0)] else stripDigest n := rfl
+
+theorem nameValid_final (i : InterestIn) (H : Bytes → Bytes) (sv : Bytes) (hv : NameValid i.name) :
+    NameValid (interestFinalName i H sv) := by
+  intro c hc
+  unfold interestFinalName at hc
+  split at hc
+  · rcases List.mem_append.mp hc with hc | hc
+    · exact hv c (stripDigest_subset _ _ hc)
+    · simp only [List.mem_cons, List.not_mem_nil, or_false] at hc
+      subst hc; simp [CompValid, digestComp]
+  · exact hv c (stripDigest_subset _ _ hc)
+
+theorem nameLen_final (i : InterestIn) (H : Bytes → Bytes) (sv : Bytes) (hH : ∀ x, (H x).length = 32) :
+    nameLen (interestFinalName i H sv) = nameLen (interestName i.name i.ap.isSome) := by
+  rw [interestName_eq]
+  unfold interestFinalName
+  split
+  · simp [nameLen, compLen, digestComp, hH]
+  · rfl
+
+/-- the Interest as finally emitted (digest patched into the name) is well-formed -/
+theorem wfInterest_final (E : EncSpecs) (i : InterestIn) (H : Bytes → Bytes) (sv : Bytes) (hv : i.Valid)
+    (hH : ∀ x, (H x).length = 32) (hsv : sv.length ≤ i.est) :
+    Spec.wfInterest (encTL 5 ++ encTL (interestValue i (interestFinalName i H sv) sv).length
+      ++ interestValue i (interestFinalName i H sv) sv) = true :=
+  wfInterest_normal E i _ sv hv (nameValid_final i H sv hv.1) (Nat.le_of_eq (nameLen_final i H sv hH)) hsv
+
 end Ndn.C03
